@@ -14,12 +14,12 @@ SANS = ["heap-use-after-free", "heap-buffer-overflow", "SEGV", "null-call", "dou
 FACILITIES = {
     None: [[], ["nopwait2"], ["pwait2eperm"], ["notimerfd"], ["noepollcreate1"], ["noeventfd2"], ["noeventfd"], ["nopwait2", "notimerfd", "noeventfd"]],
     "epoll-timerfd": [[], ["nopwait2"], ["pwait2eperm"], ["noepollcreate1"], ["noeventfd"]],
-    "epoll-timerfd epoll": [[], ["noppoll"], ["noeventfd2"], ["noeventfd"], ["noppoll", "noeventfd"]],
-    "epoll-timerfd epoll ppoll": [[], ["noeventfd2"], ["noeventfd"]],
+    "epoll-timerfd epoll": [[], ["noppoll"], ["noeventfd2"], ["noeventfd"], ["noppoll", "noeventfd"], ["probe-eintr=1"], ["probe-eintr=2"]],
+    "epoll-timerfd epoll ppoll": [[], ["noeventfd2"], ["noeventfd"], ["probe-eintr=1"], ["probe-eintr=2"]],
 }
 RULE = ("fault enumeration: base scenarios (families mix, storm, deadline, churn, lifecycle, tasks, cycles, generated without random faults) x 4 poll methods x every "
         "missing-facility configuration applicable to the method (epoll_pwait2 ENOSYS/EPERM, timerfd_create ENOSYS mid-run, ppoll ENOSYS mid-run, "
-        "epoll_create1, eventfd2, eventfd) x EINTR injected at wait call k (quick k=1..3, thorough every k reached); every log replayed through the "
+        "epoll_create1, eventfd2, eventfd; EINTR on the k-th registration probe of iv_fd_register_try under poll/ppoll) x EINTR injected at wait call k (quick k=1..3, thorough every k reached); every log replayed through the "
         "Lean machine and all monitors; plus method selection on random IV_EXCLUDE_POLL_METHOD strings x epoll availability against Ivy.L1.Select. "
         "plus enumerated bases (error-only descriptors, iv_quit inside a batch: vlib/loopgen.py erronly_cases/quit_cases; quick: a rotating subset) under the same method x facility x EINTR product; plus the enumerated kernel-timer family (vlib/loopgen.py ktimer_cases, 140 scenarios, 4 methods); plus C09's scenario programs in the three iv_event_raw transports (eventfd2 / old eventfd / pipe fallback) x four methods with C09's oracle. non-trivial = a run in which an injected fault actually fired or a non-default method was selected; distinct by log hash")
 
@@ -115,6 +115,7 @@ def run(tier, seed, proof):
             for k in ks:
                 cases.append((f"{fam}{i}-{loopgen.METHOD_NAME[meth]}-eintr{k}", with_cfg(base, meth, [], eintr=k)))
     cases += loopgen.ktimer_cases(seed)
+    cases += [c for c in loopgen.retract_cases(seed) if c[0].startswith("tryeintr")]
     fired = collections.Counter()
     viol, div = [], []
     with concurrent.futures.ThreadPoolExecutor(max_workers=common.NCPU) as ex:
